@@ -129,6 +129,7 @@ def sub_history(inp):
       'retime' p.but(pattern=p.pattern.but(max_time=T))
       'reevent' p.but(pattern=p.pattern.but(behaviour=<the behaviour of a neutral property>)) when that passes the sanity check
       'global' p.but(scope=globally) when that passes the sanity check
+      'renest' the same alternatives nested differently inside their disjunctions (left-leaning, balanced), built through the API
       'member' canonical_form of a member of an earlier result
     """
     from hpl.ast import HplScope
@@ -176,6 +177,18 @@ def sub_history(inp):
             st, q = core.guarded(lambda: p.but(scope=HplScope.globally()))
             if st == 'ok':
                 results.append(run_on(q, 'global'))
+        elif kind == 'renest':
+            # the same alternatives in the same source order, nested differently (only the API builds such trees)
+            def _renested():
+                sc = p.scope if p.scope.activator is None else p.scope.but(activator=lib.renest_event(p.scope.activator, step[1]))
+                kw = {'behaviour': lib.renest_event(p.pattern.behaviour, step[1] // 2 + 1)}
+                if p.pattern.trigger is not None:
+                    kw['trigger'] = lib.renest_event(p.pattern.trigger, step[1] // 3 + 2)
+                return p.but(scope=sc, pattern=p.pattern.but(**kw))
+
+            st, q = core.guarded(_renested)
+            if st == 'ok':
+                results.append(run_on(q, 'renest'))
         elif kind == 'member':
             r = results[step[1] % len(results)]
             q = r[step[2] % len(r)]
@@ -201,13 +214,15 @@ def build_history(ch):
     m, _info = gen.properties(ch, depth=ch.int(0, 1), wild_time=False, shape=shape)
     steps = []
     for _ in range(ch.int(2, 5)):
-        k = ch.pick(['same', 'twin', 'twin', 'retime', 'retime', 'reevent', 'global', 'member'])
+        k = ch.pick(['same', 'twin', 'twin', 'retime', 'retime', 'reevent', 'global', 'member', 'renest', 'renest', 'renest'])
         if k == 'twin':
             steps.append((k, ch.pick(['t1', 't2', 't3'])))
         elif k == 'retime':
             steps.append((k, ch.pick([0.5, 5, 30, 1000])))
         elif k == 'member':
             steps.append((k, ch.int(0, 7), ch.int(0, 15)))
+        elif k == 'renest':
+            steps.append((k, ch.int(1, 40)))
         else:
             steps.append((k,))
     return {'m': m, 'text': mast.render(m), 'steps': steps}
@@ -267,6 +282,19 @@ def shard(ctx, shard_no, nshards, per_shape):
 
     with ctx.timed('history'):
         core.run_hypothesis(ctx, 'history', from_tape(build_history), body_hist, 400 if ctx.tier == 'quick' else 2500)
+
+    with ctx.timed('vacuity-table'):
+        stride = 8 if ctx.tier == 'quick' else 1
+        for i, m in enumerate(gen.vacuity_table()):
+            if i % (stride * nshards) != (ctx.seed % stride) * nshards + shard_no:
+                continue
+            inp = {'m': m, 'text': mast.render(m)}
+            try:
+                r = sub_canonical(inp)
+            except Violation as v:
+                ctx.report(v)
+                r = 'violation'
+            ctx.case(inp['text'], r == 'split', 'vacuity-table:' + r)
 
     with ctx.timed('f13-family'):
         core.run_hypothesis(ctx, 'f13', from_tape(c14.gen_f13_case), body_f13, 100 if ctx.tier == 'quick' else 400)
